@@ -217,5 +217,6 @@ func FaultScenarios(seed int64) map[string]func() protomc.Scenario {
 		"ecdsa-keygen":    func() protomc.Scenario { return EcKeygen("small", 2, 1, seed) },
 		"ecdsa-keygen-3":  func() protomc.Scenario { return EcKeygen("small", 3, 1, seed) },
 		"ecdsa-resharing": func() protomc.Scenario { return EcResharing(2, 1, []int{0, 1}, 2, 1, seed, false) },
+		"ecdsa-resharing-3new": func() protomc.Scenario { return EcResharing(2, 1, []int{0, 1}, 3, 1, seed, false) },
 	}
 }
